@@ -4,11 +4,14 @@ Import ListNotations.
 Local Open Scope N_scope.
 Notation I1 := syn_set1.
 Notation I2 := syn_set2.
-(* single tokens that fail from the initial state, then pairs of tokens whose event streams differ *)
+(* key sequences that fail on their own from the initial state; otherwise, when a per-element check fails,
+   two-element streams (key sequence or pass-through byte, then a key sequence) whose last event differs *)
 Definition enc_last (I : ScanImpl) (bs : list N) : list N := enc_sc (last_out I bs).
+Definition singles := filter (fun t : tok => considered I2 t &&
+   negb (outcome_eqb scres_eqb (last_out I2 (tok2 t)) (last_out I1 (tok1 t)))) dom3.
 Eval vm_compute in ("cex"%string,
-  map (fun t : tok => (wit 0 (tok2 t) (tok1 t), enc_last I2 (tok2 t), enc_last I1 (tok1 t))) (firstn 20 (cex_C13s I1 I2))
+  map (fun t : tok => (wit 0 (tok2 t) (tok1 t), enc_last I2 (tok2 t), enc_last I1 (tok1 t))) (firstn 20 singles)
   ++
-  map (fun x : tok * tok => (wit 0 (tok2 (fst x) ++ tok2 (snd x)) (tok1 (fst x) ++ tok1 (snd x)),
-                             enc_last I2 (tok2 (fst x) ++ tok2 (snd x)), enc_last I1 (tok1 (fst x) ++ tok1 (snd x))))
-      (match cex_C13s I1 I2 with [] => [] | _ => firstn 20 (cex_pairs_C13s I1 I2) end)).
+  map (fun x : stok * tok => (wit 0 (stok2 (fst x) ++ tok2 (snd x)) (stok1 (fst x) ++ tok1 (snd x)),
+                              enc_last I2 (stok2 (fst x) ++ tok2 (snd x)), enc_last I1 (stok1 (fst x) ++ tok1 (snd x))))
+      (match cex_C13s I1 I2, cex_junk_C13s I1 I2 with [], [] => [] | _, _ => firstn 20 (cex_pairs_C13s I1 I2) end)).
